@@ -21,23 +21,48 @@ def q_lit(v):
     return "(Qmake (%d) %d)" % (fr.numerator, fr.denominator)
 
 
+def r_lit(v):
+    fr = Fraction(str(v)) if isinstance(v, float) else Fraction(v)
+    if fr.denominator == 1:
+        return "(IZR (%d))" % fr.numerator
+    return "(IZR (%d) / IZR (%d))" % (fr.numerator, fr.denominator)
+
+
+DOMS = {
+    "Q": {"lit": q_lit, "add": "Qplus", "sub": "Qminus", "mul": "Qmult", "div": "Qdiv", "opp": "Qopp", "abs": "Qabs",
+          "min": "Qmin", "max": "Qmax", "lt": lambda a, b: "(qltb %s %s)" % (a, b), "le": lambda a, b: "(negb (qltb %s %s))" % (b, a),
+          "pow": None, "one": "1", "zero": "0"},
+    "R": {"lit": r_lit, "add": "Rplus", "sub": "Rminus", "mul": "Rmult", "div": "Rdiv", "opp": "Ropp", "abs": "Rabs",
+          "min": "Rmin", "max": "Rmax", "lt": lambda a, b: "(rltb %s %s)" % (a, b), "le": lambda a, b: "(rleb %s %s)" % (a, b),
+          "pow": "Rpower", "one": "1", "zero": "0"},
+}
+
+
 class Tr:
-    def __init__(self, boolnames=()):
+    def __init__(self, boolnames=(), dom="Q", funcs=()):
         self.kinds = {}          # variable -> 'q' | 'b'
         for b in boolnames:
             self.kinds[b] = "b"
+        self.d = DOMS[dom]
+        self.funcs = dict(funcs)  # python local function name -> Coq name
 
     def expr(self, e):
         """returns (coq_text, kind)"""
         if isinstance(e, ast.Name):
             return e.id, self.kinds.get(e.id, "q")
         if isinstance(e, ast.Constant) and isinstance(e.value, (int, float)) and not isinstance(e.value, bool):
-            return q_lit(e.value), "q"
+            return self.d["lit"](e.value), "q"
         if isinstance(e, ast.UnaryOp) and isinstance(e.op, ast.USub):
             t, k = self.expr(e.operand)
-            return "(Qopp %s)" % self.num(t, k), "q"
+            return "(%s %s)" % (self.d["opp"], self.num(t, k)), "q"
         if isinstance(e, ast.BinOp):
-            ops = {ast.Add: "Qplus", ast.Sub: "Qminus", ast.Mult: "Qmult", ast.Div: "Qdiv"}
+            if isinstance(e.op, ast.Pow):
+                if not self.d["pow"]:
+                    raise TranslateError("power in this domain")
+                a, ka = self.expr(e.left)
+                b, kb = self.expr(e.right)
+                return "(%s %s %s)" % (self.d["pow"], self.num(a, ka), self.num(b, kb)), "q"
+            ops = {ast.Add: self.d["add"], ast.Sub: self.d["sub"], ast.Mult: self.d["mul"], ast.Div: self.d["div"]}
             for cls, name in ops.items():
                 if isinstance(e.op, cls):
                     a, ka = self.expr(e.left)
@@ -50,19 +75,19 @@ class Tr:
             a, b = self.num(a, ka), self.num(b, kb)
             op = e.ops[0]
             if isinstance(op, ast.Lt):
-                return "(qltb %s %s)" % (a, b), "b"
+                return self.d["lt"](a, b), "b"
             if isinstance(op, ast.Gt):
-                return "(qltb %s %s)" % (b, a), "b"
+                return self.d["lt"](b, a), "b"
             if isinstance(op, ast.LtE):
-                return "(negb (qltb %s %s))" % (b, a), "b"
+                return self.d["le"](a, b), "b"
             if isinstance(op, ast.GtE):
-                return "(negb (qltb %s %s))" % (a, b), "b"
+                return self.d["le"](b, a), "b"
             raise TranslateError("comparison " + type(op).__name__)
         if isinstance(e, ast.Call):
             fn = ast.unparse(e.func)
             if fn in ("np.abs", "abs") and len(e.args) == 1:
                 t, k = self.expr(e.args[0])
-                return "(Qabs %s)" % self.num(t, k), "q"
+                return "(%s %s)" % (self.d["abs"], self.num(t, k)), "q"
             if fn == "np.choose" and len(e.args) == 2 and isinstance(e.args[1], (ast.Tuple, ast.List)) and len(e.args[1].elts) == 2:
                 c, kc = self.expr(e.args[0])
                 if kc != "b":
@@ -75,7 +100,14 @@ class Tr:
             if fn in ("np.minimum", "np.maximum") and len(e.args) == 2:
                 a, ka = self.expr(e.args[0])
                 b, kb = self.expr(e.args[1])
-                return "(%s %s %s)" % ("Qmin" if fn.endswith("minimum") else "Qmax", self.num(a, ka), self.num(b, kb)), "q"
+                return "(%s %s %s)" % (self.d["min"] if fn.endswith("minimum") else self.d["max"], self.num(a, ka), self.num(b, kb)), "q"
+            if fn == "np.power" and len(e.args) == 2 and self.d["pow"]:
+                a, ka = self.expr(e.args[0])
+                b, kb = self.expr(e.args[1])
+                return "(%s %s %s)" % (self.d["pow"], self.num(a, ka), self.num(b, kb)), "q"
+            if fn in self.funcs and len(e.args) == 1:
+                a, ka = self.expr(e.args[0])
+                return "(%s %s)" % (self.funcs[fn], self.num(a, ka)), "q"
             raise TranslateError("call " + fn)
         raise TranslateError("expression " + type(e).__name__)
 
@@ -83,16 +115,19 @@ class Tr:
     def num(t, k):
         return t if k == "q" else "(if %s then 1 else 0)" % t
 
-    def block(self, stmts):
-        """list of ast statements ending in Return -> nested lets"""
+    def block(self, stmts, result=None):
+        """list of ast statements ending in Return (or, with `result`, at the assignment to that name) -> nested lets"""
         out = []
         for s in stmts:
+            if result and isinstance(s, ast.Return):
+                out.append(result)
+                return "\n  ".join(out), self.kinds.get(result, "q")
             if isinstance(s, ast.Assign) and len(s.targets) == 1 and isinstance(s.targets[0], ast.Name):
                 t, k = self.expr(s.value)
                 self.kinds[s.targets[0].id] = k
                 out.append("let %s := %s in" % (s.targets[0].id, t))
             elif isinstance(s, ast.AugAssign) and isinstance(s.target, ast.Name):
-                ops = {ast.Add: "Qplus", ast.Sub: "Qminus", ast.Mult: "Qmult"}
+                ops = {ast.Add: self.d["add"], ast.Sub: self.d["sub"], ast.Mult: self.d["mul"]}
                 name = next((n for c, n in ops.items() if isinstance(s.op, c)), None)
                 if name is None:
                     raise TranslateError("augmented operator")
